@@ -224,7 +224,7 @@ CHECK_DEADLOCK FALSE
 FEATURES = ["metadata", "input_redeemer", "mint", "mint_redeemer", "burn_same", "burn_other_asset", "burn_all",
             "optional_empty", "optional_full", "reference", "reference_twice", "collateral", "signers", "signers_dup",
             "signers_apart", "datum", "second_input", "validity",
-            "donation", "plutus_witness", "plutus_witness_v2", "native_witness", "publish_script", "vote_deleg"]
+            "donation", "plutus_witness", "plutus_witness_v2", "native_witness", "publish_script", "vote_deleg", "witness_more"]
 
 
 def gen_ledger(rep, mode, tag, ninputs=2, features=(), ixs=(0,), nfs=(0,), workers=6, simulate=None, seed=None):
@@ -287,7 +287,8 @@ def check_c09(tier, seed):
     rep = core.Report("C09", tier, seed)
     rep.rule = ("a case is a variant type with 140 cases in which the constructed case `ix` has `nf` fields of one type (Int, Bytes, "
                 "Bool, nested record, List<Int>, Map<Int,Bytes>), placed in an output datum or a mint redeemer; integers take "
-                "every boundary value across the i128 range, byte strings lengths 0..100. The inline datum / redeemer bytes are "
+                "every boundary value across the i128 range, byte strings lengths 0..100; every field gets a value different from its "
+                "neighbours' and the constructor is also written with its fields in the opposite order. The inline datum / redeemer bytes are "
                 "parsed by the driver's own Plutus Data reader and must equal Enc(value) with standard framing (tags 121-127, "
                 "1280-1400, 102; CBOR int vs bignum). non-trivial: ix >= 7 or a field value outside 64 bits or a nested field; "
                 "distinct = distinct (ix, nf, type, position, values).")
@@ -302,7 +303,9 @@ def check_c09(tier, seed):
     seen = set()
     for c in a + b:
         m = c["meta"]
-        key = (m["ix"], m["nf"], m["ty"], m["where"])
+        if m["rev"] and m["nf"] < 2:
+            continue                   # nothing to reverse
+        key = (m["ix"], m["nf"], m["ty"], m["where"], m["rev"])
         if key in seen:
             continue
         seen.add(key)
@@ -353,13 +356,13 @@ def check_c10(tier, seed):
     quick = tier == "quick"
     feats = FEATURES if not quick else ["metadata", "input_redeemer", "mint", "mint_redeemer", "burn_same", "burn_other_asset",
                                         "burn_all", "optional_empty", "reference_twice", "signers", "signers_dup", "signers_apart", "collateral",
-                                        "donation", "plutus_witness", "plutus_witness_v2", "native_witness", "publish_script", "vote_deleg"]
+                                        "donation", "plutus_witness", "plutus_witness_v2", "native_witness", "publish_script", "vote_deleg", "witness_more"]
     cases = gen_ledger(rep, "c10", "c10_mc", features=feats, workers=6 if quick else 12)
     rep.exhaustive = True
     rng = random.Random(seed)
     limit = 4096 if quick else 40000
     if len(cases) > limit:
-        chain = {"donation", "plutus_witness", "plutus_witness_v2", "native_witness", "publish_script", "vote_deleg"}
+        chain = {"donation", "plutus_witness", "plutus_witness_v2", "native_witness", "publish_script", "vote_deleg", "witness_more"}
         keep = [c for c in cases if chain & set(c["meta"]["fs"])]       # the chain-specific part of the lattice is never sampled away
         rest = [c for c in cases if not chain & set(c["meta"]["fs"])]
         rng.shuffle(rest)
